@@ -4,7 +4,7 @@
 From Coq Require Import List NArith ZArith Bool Lia ZifyN ZifyBool.
 From V Require Import C12.Model C12.Proofs C13.Model C13.Proofs C13.Proofs_Votes C13.Proofs_Commit
   C13.Proofs_Life C13.Proofs_Resume C13.Proofs_Replay C13.Proofs_Obs C13.Proofs_ObsStep C13.Proofs_Cells
-  C13.Proofs_Shape C13.Proofs_Wal C13.Proofs_Crash.
+  C13.Proofs_Shape C13.Proofs_Wal C13.Proofs_Crash C13.Proofs_Fut C13.Proofs_Upd C13.Proofs_Core C13.Proofs_Inv.
 Import ListNotations.
 Open Scope N_scope.
 
@@ -13,28 +13,29 @@ Proof. exact (all_vis_inv 1 (N.le_refl 1)). Qed.
 
 Section MidGen.
   Variable h0 : N.
+  Variable D0 : list wrec.
   Variable Hs : N.
   Variable D1 : list wrec.
   Variable rest0 : list action.
   Variable Good : list effect -> Prop.
   Hypothesis HsPos : 0 < Hs.
-  Hypothesis G_ext : forall pre pre', disk pre' = disk pre ->
+  Hypothesis G_ext : forall pre pre', disk D0 pre' = disk D0 pre ->
     resume_height h0 pre' = resume_height h0 pre -> Good pre -> Good pre'.
-  Hypothesis G_flushed : forall pre, disk pre = D1 -> resume_height h0 pre = Hs -> Good pre.
+  Hypothesis G_flushed : forall pre, disk D0 pre = D1 -> resume_height h0 pre = Hs -> Good pre.
   Hypothesis G_committed : forall pre, (exists p, In (ACommit p) rest0) ->
-    (disk pre = D1 \/ disk pre = D1 ++ [RPrune Hs]) -> resume_height h0 pre = Hs + 1 -> Good pre.
+    (disk D0 pre = D1 \/ disk D0 pre = D1 ++ [RPrune Hs]) -> resume_height h0 pre = Hs + 1 -> Good pre.
   Hypothesis CH : forall p, In (ACommit p) rest0 -> p_h p = Hs.
   Hypothesis PB : prunes_below Hs D1.
 
   Record MidG (wm : wal) (pre : list effect) : Prop := mkMidG {
     g_good : Good pre;
-    g_wal : wm = apply_effects wal_empty pre;
+    g_wal : wm = apply_effects (mkWal D0 []) pre;
     g_res : resume_height h0 pre = Hs;
     g_recs : w_durable wm ++ w_pending wm = D1;
     g_np : no_prune (w_pending wm)
   }.
 
-  Lemma disk_app : forall wm pre l, wm = apply_effects wal_empty pre -> disk (pre ++ l) = w_durable (apply_effects wm l).
+  Lemma disk_app : forall wm pre l, wm = apply_effects (mkWal D0 []) pre -> disk D0 (pre ++ l) = w_durable (apply_effects wm l).
   Proof. intros wm pre l H. unfold disk. rewrite apply_effects_app, <- H. reflexivity. Qed.
 
   Lemma exec_mid_gen : forall rest wm pre, all_vis rest -> col rest = true ->
@@ -135,69 +136,24 @@ Section StateInv.
   Hypothesis Qpos : quorum_positive E.
   Variable h0 : N.
   Hypothesis Hh0 : 1 <= h0.
+  Variable D0 : list wrec.
+  Variable E0 : list effect.
 
   Definition rec_state (pre : list effect) (n2 : N) : state :=
-    d_sm (fst (recover E (resume_height h0 pre) (disk pre) n2)).
+    d_sm (fst (recover E (resume_height h0 pre) (disk D0 pre) n2)).
   (* the recovered state is (up to obs_eq) the state at one of the call boundaries *)
   Definition StGood (sts : list bstate) (pre : list effect) : Prop :=
     exists sd rest, In (sd, rest) sts /\ forall n2, obs_eq (rec_state pre n2) sd.
 
   Lemma StGood_mono : forall sts more pre, StGood sts pre -> StGood (sts ++ more) pre.
   Proof. intros sts more pre [sd [rest [Hin H]]]. exists sd, rest. split; [apply in_or_app; left; exact Hin|exact H]. Qed.
-  Lemma StGood_ext : forall sts pre pre', disk pre' = disk pre ->
+  Lemma StGood_ext : forall sts pre pre', disk D0 pre' = disk D0 pre ->
     resume_height h0 pre' = resume_height h0 pre -> StGood sts pre -> StGood sts pre'.
   Proof.
     intros sts pre pre' Hd Hr [sd [rest [Hin H]]]. exists sd, rest. split; [exact Hin|].
     intro n2. unfold rec_state. rewrite Hd, Hr. apply H.
   Qed.
 
-  (* the facts about a logged call that both invariants use *)
-  Lemma logged_ctx : forall s w n effs i s' n' e rest,
-    BI E h0 (mkD s w n) effs ->
-    sm_step E s n i = (s', n', wal_of e :: rest) ->
-    step_facts E s i s' (wal_of e :: rest) ->
-    input_of_entry e = i -> ht e = s_h s ->
-    0 < s_h s /\
-    wal_append e w = mkWal (w_durable w) (w_pending w ++ [REntry e]) /\
-    prunes_below (s_h s) ((w_durable w ++ w_pending w) ++ [REntry e]) /\
-    rents ((w_durable w ++ w_pending w) ++ [REntry e]) = apps effs ++ [e] /\
-    hsorted (apps effs ++ [e]) /\
-    obs_eq (fst (fst (rep E (s_h s) (apps effs ++ [e])))) s' /\
-    Forall (fun x => ht x < s_h s + 1) (apps effs ++ [e]) /\
-    (has_commit (wal_of e :: rest) = true -> obs_eq (init_state (s_h s + 1)) s') /\
-    resume_height h0 effs = s_h s /\ disk effs = w_durable w.
-  Proof.
-    intros s w n effs i s' n' e rest B Hst SF Hi He.
-    destruct (BI_height E h0 Hh0 _ _ B) as [Hres Hpos]. cbn [d_sm] in Hres, Hpos.
-    destruct B as [Bwf Bnv Bci Blow Bso Bem Bre Bco Bvh Bwal Brec Bpr Bnp Bcr]. cbn [d_sm d_wal] in *.
-    assert (PBd : prunes_below (s_h s) (w_durable w)).
-    { unfold prunes_below in *. apply Forall_app in Bpr. apply Bpr. }
-    assert (Below : Forall (fun x => ht x < s_h s + 1) (apps effs ++ [e])).
-    { apply Forall_app. split; [eapply Forall_impl; [|exact Blow]; intros x Hx; simpl in Hx; lia|].
-      constructor; [lia|constructor]. }
-    destruct (rep_next E Hdet Qpos s n i effs e Bre He Hi) as [RN1 _]. rewrite Hst in RN1. cbn [fst] in RN1.
-    split; [|split; [|split; [|split; [|split; [|split; [|split; [|split; [|split]]]]]]]].
-    - exact Hpos.
-    - unfold wal_append. pose proof (pruned_below (s_h s) (w_durable w) Hpos PBd).
-      fold ht. destruct (ht e <=? pruned_upto (w_durable w)) eqn:El; [lia|reflexivity].
-    - unfold prunes_below. apply Forall_app. split; [exact Bpr|]. constructor; [exact I|constructor].
-    - rewrite rents_app, Brec. reflexivity.
-    - apply hsorted_app. split; [exact Bso|]. split; [simpl; auto|].
-      intros x y Hx [<-|[]]. rewrite Forall_forall in Blow. rewrite He. apply Blow. exact Hx.
-    - exact RN1.
-    - exact Below.
-    - intro Hc.
-      assert (Eh : s_h s' = s_h s + 1).
-      { pose proof (sf_h _ _ _ _ _ SF) as Z. destruct (has_commit_in _ Hc) as [p Hp].
-        rewrite (col_commit_hs _ p (sf_col _ _ _ _ _ SF) Hp) in Z. simpl in Z. lia. }
-      split.
-      + rewrite (sf_reset _ _ _ _ _ SF Hc), Eh. reflexivity.
-      + split; [cbn [init_state s_vc vc_new vc_h]; rewrite (sf_wf _ _ _ _ _ SF); exact (eq_sym Eh)|].
-        intros h' r Hh'. cbn [init_state s_vc vc_new vc_h] in Hh'. cbn [init_state s_vc]. rewrite vc_new_cell.
-        rewrite (sf_above _ _ _ _ _ SF) by lia. symmetry. apply Bem. lia.
-    - symmetry. exact Hres.
-    - unfold disk. rewrite <- Bwal. reflexivity.
-  Qed.
   Lemma prefixes_gen : forall (Good : list effect -> Prop) effs es,
     (forall j, Good (firstn j effs)) -> (forall j, Good (effs ++ firstn j es)) ->
     forall j, Good (firstn j (effs ++ es)).
@@ -208,22 +164,23 @@ Section StateInv.
   Qed.
 
   Definition BS (d : dstate) (effs : list effect) (sts : list bstate) : Prop :=
-    BI E h0 d effs /\ forall j, StGood sts (firstn j effs).
+    BI E h0 D0 E0 d effs /\ forall j, StGood sts (firstn j effs).
 
   Lemma BS_step : forall d i effs sts rest, BS d effs sts -> good_step E d i = true ->
     BS (fst (fst (dstep E false d i))) (effs ++ snd (fst (dstep E false d i)))
        (sts ++ [(d_sm (fst (fst (dstep E false d i))), rest)]).
   Proof.
-    intros [s w n] i effs sts rest0 [B St] G. split; [apply (BI_step E Hdet Qpos h0 Hh0); assumption|].
+    intros [s w n] i effs sts rest0 [B St] G. split; [apply (BI_step E Hdet Qpos h0 Hh0 D0 E0); assumption|].
     assert (Hok : ok_input s i = true).
     { unfold good_step, good_body in G. cbn [d_sm d_calls] in G. apply andb_prop in G. apply G. }
-    destruct (b_cinv _ _ _ _ B) as [[m R] _]. cbn [d_sm] in R.
-    pose proof (sm_step_facts E s w n i m R (b_wf _ _ _ _ B) (b_nv _ _ _ _ B) G) as SF.
+    destruct (b_cinv _ _ _ _ _ _ B) as [[m R] _]. cbn [d_sm] in R.
+    pose proof (sm_step_facts E s w n i m R (b_wf _ _ _ _ _ _ B) (b_nv _ _ _ _ _ _ B) G) as SF.
     rewrite dstep_spec. unfold sm_of. cbn [d_sm d_calls d_wal fst snd].
     destruct (sm_step E s n i) as [[s' n'] acts] eqn:Hst. cbn [fst snd] in *.
     set (sts' := sts ++ [(s', rest0)]).
     assert (Old : forall j, StGood sts' (firstn j effs)) by (intro j; apply StGood_mono; apply St).
-    destruct (sf_shape _ _ _ _ _ SF) as [Ea Ho|e rest Ea AV Hi].
+    assert (OldAll : StGood sts' effs) by (specialize (Old (length effs)); rewrite firstn_all in Old; exact Old).
+    destruct (sf_shape _ _ _ _ _ SF) as [Ea Ho|e rest Ea AV Hi|e Ea Hi Me Hlt].
     - subst acts. cbn [exec fst snd]. rewrite app_nil_r. exact Old.
     - subst acts.
       assert (Hie : input_of_entry e = i /\ ht e = s_h s).
@@ -232,23 +189,26 @@ Section StateInv.
         apply has_commit_hs in Hc. pose proof (sf_h _ _ _ _ _ SF) as Z. rewrite Hc in Z. simpl in Z.
         unfold ht. simpl. lia. }
       destruct Hie as [Hi1 Hi2].
-      destruct (logged_ctx s w n effs i s' n' e rest B Hst SF Hi1 Hi2)
-        as [Hpos [Wa [PB1 [Rn [So1 [RN1 [Below [Fresh [Hres Hdisk]]]]]]]]].
+      destruct (logged_ctx E Hdet Qpos h0 Hh0 D0 E0 s w n effs i s' n' e rest B Hst SF Hi1 Hi2)
+        as [Hpos [Wa [PB1 [Rn [Ms [Live [_ [Fresh [Hres Hdisk]]]]]]]]].
       set (Hs := s_h s) in *. set (D1 := (w_durable w ++ w_pending w) ++ [REntry e]) in *.
+      set (A' := LL D0 effs ++ [e]) in *.
       assert (Col : col (wal_of e :: rest) = true) by apply (sf_col _ _ _ _ _ SF).
       assert (Crest : col rest = true) by (eapply col_tail; exact Col).
       rewrite exec_logged, Wa. cbn [fst snd].
       apply prefixes_gen; [exact Old|].
-      assert (Gfl : forall pre, disk pre = D1 -> resume_height h0 pre = Hs -> StGood sts' pre).
+      assert (Gfl : forall pre, disk D0 pre = D1 -> resume_height h0 pre = Hs -> StGood sts' pre).
       { intros pre Hd Hr. exists s', rest0. split; [apply in_or_app; right; left; reflexivity|].
         intro n2. unfold rec_state. rewrite Hd, Hr.
-        rewrite (recover_state E Hdet Hs D1 n2 Hpos PB1) by (rewrite Rn; exact So1). rewrite Rn. exact RN1. }
+        destruct (recover_link E Hdet Hs D1 n2 Hpos PB1) as [RL _]; [rewrite Rn; exact Ms|].
+        rewrite Rn in RL. eapply obs_eq_trans; [exact RL|apply obs_eq_sym; exact Live]. }
       assert (Gco : forall pre, (exists p, In (ACommit p) rest) ->
-                (disk pre = D1 \/ disk pre = D1 ++ [RPrune Hs]) -> resume_height h0 pre = Hs + 1 -> StGood sts' pre).
+                (disk D0 pre = D1 \/ disk D0 pre = D1 ++ [RPrune Hs]) -> resume_height h0 pre = Hs + 1 -> StGood sts' pre).
       { intros pre [p Hp] Hd Hr. exists s', rest0. split; [apply in_or_app; right; left; reflexivity|].
         assert (Hc : has_commit (wal_of e :: rest) = true) by (apply (in_has_commit _ p); right; exact Hp).
+        destruct (Fresh Hc) as [_ Fr].
         intro n2. unfold rec_state. rewrite Hr.
-        assert (X : rents (disk pre) = apps effs ++ [e] /\ prunes_below (Hs + 1) (disk pre)).
+        assert (X : rents (disk D0 pre) = A' /\ prunes_below (Hs + 1) (disk D0 pre)).
         { destruct Hd as [-> | ->].
           - split; [exact Rn|apply (prunes_below_mono h0 Hh0 Hs); [lia|exact PB1]].
           - split; [rewrite rents_app, Rn; simpl; apply app_nil_r|].
@@ -256,13 +216,13 @@ Section StateInv.
             + apply (prunes_below_mono h0 Hh0 Hs); [lia|exact PB1].
             + constructor; [lia|constructor]. }
         destruct X as [X1 X2].
-        rewrite (recover_state E Hdet (Hs + 1) (disk pre) n2 ltac:(lia) X2) by (rewrite X1; exact So1).
-        rewrite X1. unfold rep. rewrite (above_f_none h0 Hh0 _ _ Below). cbn [sm_replay_acts fst].
-        apply Fresh. exact Hc. }
-      intros [|j]; [rewrite app_nil_r; specialize (Old (length effs)); rewrite firstn_all in Old; exact Old|].
+        destruct (recover_link E Hdet (Hs + 1) (disk D0 pre) n2 ltac:(lia) X2) as [RL _].
+        { rewrite X1. apply (futs_msgs_sub Hs (Hs + 1) A'); [lia|exact Ms]. }
+        rewrite X1 in RL. eapply obs_eq_trans; [exact RL|apply obs_eq_sym; exact Fr]. }
+      intros [|j]; [rewrite app_nil_r; exact OldAll|].
       cbn [firstn]. change (effs ++ Append e :: firstn j ?x) with (effs ++ [Append e] ++ firstn j x).
       rewrite app_assoc.
-      apply (exec_mid_gen h0 Hs D1 rest (StGood sts') Hpos (StGood_ext sts') Gfl Gco).
+      apply (exec_mid_gen h0 D0 Hs D1 rest (StGood sts') Hpos (StGood_ext sts') Gfl Gco).
       + intros p Hp. apply (sf_commit _ _ _ _ _ SF p). right. exact Hp.
       + exact PB1.
       + exact AV.
@@ -270,28 +230,35 @@ Section StateInv.
       + auto.
       + constructor.
         * apply (StGood_ext sts' effs).
-          -- rewrite disk_snoc, <- (b_wal _ _ _ _ B). cbn [apply_effect d_wal]. rewrite Wa. exact (eq_sym Hdisk).
+          -- rewrite (disk_snoc D0), <- (b_wal _ _ _ _ _ _ B). cbn [apply_effect d_wal]. rewrite Wa. exact (eq_sym Hdisk).
           -- rewrite resume_height_app. reflexivity.
-          -- specialize (Old (length effs)). rewrite firstn_all in Old. exact Old.
-        * rewrite apply_effects_app, <- (b_wal _ _ _ _ B). cbn [apply_effects fold_left apply_effect d_wal]. symmetry. exact Wa.
+          -- exact OldAll.
+        * rewrite apply_effects_app, <- (b_wal _ _ _ _ _ _ B). cbn [apply_effects fold_left apply_effect d_wal]. symmetry. exact Wa.
         * rewrite resume_height_app. exact Hres.
         * cbn [w_durable w_pending]. unfold D1. rewrite app_assoc. reflexivity.
-        * cbn [w_pending]. unfold no_prune. apply Forall_app. split; [apply (b_noprune _ _ _ _ B)|].
+        * cbn [w_pending]. unfold no_prune. apply Forall_app. split; [apply (b_noprune _ _ _ _ _ _ B)|].
           constructor; [exact I|constructor].
+    - (* a logged message for a future height: only an Append, nothing on disk changes *)
+      subst acts. rewrite exec_logged. cbn [exec fst snd].
+      apply prefixes_gen; [exact Old|].
+      intros [|j]; cbn [firstn]; [rewrite app_nil_r; exact OldAll|]. rewrite firstn_nil.
+      apply (StGood_ext sts' effs); [|rewrite resume_height_app; reflexivity|exact OldAll].
+      rewrite (disk_snoc D0), <- (b_wal _ _ _ _ _ _ B). cbn [apply_effect d_wal].
+      unfold wal_append. destruct (entry_height e <=? pruned_upto (w_durable w)); unfold disk; rewrite <- (b_wal _ _ _ _ _ _ B); reflexivity.
   Qed.
 End StateInv.
 
 (* ---------- the recovered state at every kill point of a plain life ---------- *)
 Lemma BS_run : forall E, value_deterministic E -> quorum_positive E -> forall h0 ins,
   good_run E h0 ins = true ->
-  BS E h0 (fst (lifetime E h0 [] 0 ins)) (flat (snd (lifetime E h0 [] 0 ins))) (life_states E h0 ins).
+  BS E h0 [] [] (fst (lifetime E h0 [] 0 ins)) (flat (snd (lifetime E h0 [] 0 ins))) (life_states E h0 ins).
 Proof.
   intros E Hdet Q h0 ins G.
   assert (Hh0 : 1 <= h0).
   { unfold good_run in G. apply andb_prop in G. destruct G as [G _]. apply andb_prop in G. destruct G as [G _].
     apply N.leb_le in G. exact G. }
-  apply (run_PS E (BS E h0)); [intros; apply BS_step; assumption|exact G|].
-  split; [apply BI_init; exact Hh0|].
+  apply (run_PS E (BS E h0 [] [])); [intros; apply BS_step; assumption|exact G|].
+  split; [apply BI_init; [exact Hh0|reflexivity|reflexivity]|].
   intro j. rewrite firstn_nil. exists (init_state h0), ins. split; [left; reflexivity|].
   intro n2. unfold rec_state. apply obs_eq_refl.
 Qed.
@@ -308,5 +275,5 @@ Proof.
   intros E h0 ins1 k n2 Hdet Q G effs pre.
   destruct (BS_run E Hdet Q h0 ins1 G) as [B St]. fold effs in B, St. split.
   - destruct (St k) as [sd [rest [Hin H]]]. exists sd, rest. split; [exact Hin|]. apply (H n2).
-  - intros kd v Hin Hh. apply (b_crash _ _ _ _ B k n2 kd v Hin Hh).
+  - intros kd v Hin Hh. apply (proj1 (b_crash _ _ _ _ _ _ B k) n2 kd v Hin Hh).
 Qed.
